@@ -352,17 +352,30 @@ impl Read for FailAtReader<'_> {
 	}
 }
 
-/// Writer that accepts exactly `k` bytes in total and then fails forever.
+/// Writer that accepts exactly `k` bytes in total and then fails forever (default), reports `Ok(0)`
+/// forever (a full fixed-size buffer: `zero`), or fails exactly once and then accepts everything (`once`).
 pub struct FailAtWriter {
 	pub k: usize,
 	pub accepted: Rc<RefCell<Vec<u8>>>,
 	pub text: String,
+	pub mode: u8,
+	pub failed: bool,
 }
 
 impl FailAtWriter {
 	pub fn new(k: usize) -> (Self, Rc<RefCell<Vec<u8>>>) {
 		let acc = Rc::new(RefCell::new(Vec::new()));
-		(FailAtWriter { k, accepted: acc.clone(), text: format!("{INJECTED_WRITE} @{k}") }, acc)
+		(FailAtWriter { k, accepted: acc.clone(), text: format!("{INJECTED_WRITE} @{k}"), mode: 0, failed: false }, acc)
+	}
+	pub fn zero(k: usize) -> (Self, Rc<RefCell<Vec<u8>>>) {
+		let (mut w, acc) = Self::new(k);
+		w.mode = 1;
+		(w, acc)
+	}
+	pub fn once(k: usize) -> (Self, Rc<RefCell<Vec<u8>>>) {
+		let (mut w, acc) = Self::new(k);
+		w.mode = 2;
+		(w, acc)
 	}
 }
 
@@ -372,7 +385,15 @@ impl Write for FailAtWriter {
 			return Ok(0);
 		}
 		let mut acc = self.accepted.borrow_mut();
+		if self.mode == 2 && self.failed {
+			acc.extend_from_slice(buf);
+			return Ok(buf.len());
+		}
 		if acc.len() >= self.k {
+			self.failed = true;
+			if self.mode == 1 {
+				return Ok(0);
+			}
 			return Err(io::Error::new(io::ErrorKind::Other, self.text.clone()));
 		}
 		let n = buf.len().min(self.k - acc.len());
@@ -384,3 +405,41 @@ impl Write for FailAtWriter {
 	}
 }
 
+
+/// Reader that reports `ErrorKind::Interrupted` exactly once, when `k` bytes were delivered (the
+/// conventional "try again"), and otherwise delivers the data in `chunk`-sized reads (0 = all at once).
+pub struct InterruptOnceReader<'a> {
+	pub data: &'a [u8],
+	pub pos: usize,
+	pub k: usize,
+	pub chunk: usize,
+	pub done: bool,
+}
+
+impl<'a> InterruptOnceReader<'a> {
+	pub fn new(data: &'a [u8], k: usize, chunk: usize) -> Self {
+		InterruptOnceReader { data, pos: 0, k, chunk, done: false }
+	}
+}
+
+impl Read for InterruptOnceReader<'_> {
+	fn read(&mut self, buf: &mut [u8]) -> io::Result<usize> {
+		if buf.is_empty() {
+			return Ok(0);
+		}
+		if !self.done && self.pos >= self.k {
+			self.done = true;
+			return Err(io::Error::new(io::ErrorKind::Interrupted, "interrupted (injected, once)"));
+		}
+		let mut n = buf.len().min(self.data.len() - self.pos);
+		if !self.done {
+			n = n.min(self.k - self.pos);
+		}
+		if self.chunk > 0 {
+			n = n.min(self.chunk);
+		}
+		buf[..n].copy_from_slice(&self.data[self.pos..self.pos + n]);
+		self.pos += n;
+		Ok(n)
+	}
+}
